@@ -2,18 +2,97 @@ package main
 
 import (
 	"fmt"
-	"golang.org/x/tools/go/packages"
-	"golang.org/x/tools/go/ssa"
-	"golang.org/x/tools/go/ssa/ssautil"
+	"os"
+	"strconv"
+	"strings"
 )
 
+func usage() {
+	fmt.Fprintln(os.Stderr, "usage: gosmt job <pkg> <harness> [params...] | check <prop> [--tier quick|thorough] | replay <path>")
+	os.Exit(2)
+}
+
 func main() {
-	cfg := &packages.Config{Mode: packages.LoadAllSyntax, Dir: "/repo"}
-	pkgs, err := packages.Load(cfg, "./...")
-	if err != nil {
-		panic(err)
+	if len(os.Args) < 2 {
+		usage()
 	}
-	prog, spkgs := ssautil.AllPackages(pkgs, ssa.InstantiateGenerics)
-	prog.Build()
-	fmt.Println(len(spkgs))
+	switch os.Args[1] {
+	case "job":
+		if len(os.Args) < 4 {
+			usage()
+		}
+		job := Job{Pkg: os.Args[2], Harness: os.Args[3]}
+		for _, a := range os.Args[4:] {
+			if strings.HasPrefix(a, "--unwind=") {
+				job.Unwind, _ = strconv.Atoi(a[9:])
+				continue
+			}
+			if strings.HasPrefix(a, "--timeout=") {
+				job.Timeout, _ = strconv.Atoi(a[10:])
+				continue
+			}
+			if strings.HasPrefix(a, "--cube=") {
+				job.Cube, _ = strconv.Atoi(a[7:])
+				continue
+			}
+			if strings.HasPrefix(a, "--contract=") {
+				job.Contracts = append(job.Contracts, a[11:])
+				continue
+			}
+			if strings.HasPrefix(a, "--forkin=") {
+				job.ForkIn = append(job.ForkIn, a[9:])
+				continue
+			}
+			if strings.HasPrefix(a, "--fork=") {
+				job.ForkFuncs = append(job.ForkFuncs, a[7:])
+				continue
+			}
+			if strings.HasPrefix(a, "--const=") {
+				kv := strings.SplitN(a[8:], ":", 2)
+				if job.Consts == nil {
+					job.Consts = map[string]string{}
+				}
+				job.Consts[kv[0]] = kv[1]
+				continue
+			}
+			n, err := strconv.Atoi(a)
+			if err != nil {
+				usage()
+			}
+			job.Params = append(job.Params, n)
+		}
+		r := newRunner()
+		jr := r.runJob(job)
+		r.wg.Wait()
+		fmt.Printf("job %s: sym %d ms, instrs %d, forks %d, merges %d, paths %d, inputs %d, err=%q\n", job.key(), jr.SymMs, jr.Instrs, jr.Forks, jr.Merges, jr.Paths, jr.Inputs, jr.Err)
+		agg := map[string]int{}
+		for _, o := range jr.Oblig {
+			agg[o.Kind+" "+o.Label+" "+o.Status]++
+		}
+		if len(jr.Oblig) > 40 {
+			for k, v := range agg {
+				fmt.Printf("  %5d x %s\n", v, k)
+			}
+			for _, o := range jr.Oblig {
+				if o.Status == "sat" && o.Kind != "cover" || o.Status == "unknown" {
+					fmt.Printf("  %-7s %-40s %-8s %5d ms path=%v model: %v %s\n", o.Kind, o.Label, o.Status, o.Ms, o.Path, o.model, o.detail)
+				}
+			}
+			fmt.Println("funcs:", strings.Join(jr.Funcs, " "))
+			return
+		}
+		for _, o := range jr.Oblig {
+			fmt.Printf("  %-7s %-40s %-8s %5d ms  nodes=%d %s %s\n", o.Kind, o.Label, o.Status, o.Ms, o.Size, o.Pos, o.detail)
+			if o.Status == "sat" && o.Kind != "cover" {
+				fmt.Printf("      model: %v\n      traces: %v\n", o.model, o.traces)
+			}
+		}
+		fmt.Println("funcs:", strings.Join(jr.Funcs, " "))
+	case "check":
+		os.Exit(cmdCheck(os.Args[2:]))
+	case "replay":
+		os.Exit(cmdReplay(os.Args[2:]))
+	default:
+		usage()
+	}
 }
